@@ -77,6 +77,12 @@ def tree_spec(draw, max_dirs=4, max_files=7, hostile=True, hidden=True,
         n = draw(name)
         if hidden and draw(st.integers(0, 11)) == 0:
             n = draw(st.sampled_from(NAMES_HIDDEN))
+        sibs = [d.rsplit('/', 1)[-1] for d in dirs[1:]
+                if (d.rsplit('/', 1)[0] if '/' in d else '') == parent]
+        if sibs and draw(st.integers(0, 3)) == 0:
+            # a sibling whose name is a string prefix of this one
+            n = draw(st.sampled_from(sibs)) + draw(
+                st.sampled_from(['bar', '.d', '-extra', ' x', '0']))
         p = join(parent, n)
         if p in used:
             continue
